@@ -439,6 +439,48 @@ def run_givenup(role, how, extra, probe, obs):
     return problems, any_oop
 
 
+def run_early_ack(role, extra, flags, obs):
+    ''' An XFER_ACK that acknowledges (to its end) an own bundle of which nothing has been sent yet: it waits in the queue behind
+    one that is in flight.  Out of place; the queued transfers must be unaffected (sent and finished once, later, as usual). '''
+    peer = Peer(role, 'idle')
+    problems = []
+    first = peer.queue_own()
+    peer.settle()
+    others = [peer.queue_own() for _ in range(extra)]     # the loop does not run in between
+    victim = others[-1]
+    before = peer.reactions()
+    peer.write(tw.encode(dict(type='XFER_ACK', flags=flags, transfer_id=int(victim), length=OWN_LEN)))
+    peer.settle()
+    obs['out_of_place_injected'] += 1
+    what = 'XFER_ACK (flags %d) for own transfer %s of which nothing had been sent (%s endpoint, %d queued behind the one in flight)' % (
+        flags, victim, role, extra)
+    errs = peer.sim.world.callback_errors
+    if errs:
+        return [('raised', 'after %s: callback %s raised %s: %s' % (what, errs[0].source, errs[0].exc_type, str(errs[0].exc)[:60]),
+                 dict(msg='early-ack', exc_type=errs[0].exc_type))], True
+    # (the id is known, so the statement's "unknown transfer" reaction is not demanded: only no exception and unaffected transfers)
+    if peer.reactions() > before or peer.closed():
+        obs['reactions_seen'] += 1
+    if not (peer.closed() or peer.terminating()):
+        peer.cooperate()
+        errs = peer.sim.world.callback_errors
+        if errs:
+            problems.append(('raised', 'while the peer cooperated after %s: callback %s raised %s' % (what, errs[0].source, errs[0].exc_type),
+                             dict(exc_type=errs[0].exc_type)))
+        else:
+            fins = {}
+            for ev in peer.sim.hist.signals('send_bundle_finished'):
+                fins.setdefault(str(ev['args'][0]), []).append(str(ev['args'][2]))
+            for tid in [first] + others:
+                if fins.get(tid) == ['success']:
+                    obs['own_transfers_completed'] += 1
+                elif not (peer.closed() or peer.terminating()):
+                    problems.append(('own-transfer', 'after %s: own transfer %s finished with %s although the peer then acknowledged every segment' % (
+                        what, tid, fins.get(tid)), {}))
+            obs['deliveries_checked'] += 1
+    return problems, True
+
+
 def _state_alphabet(state):
     base = ['seg-whole', 'seg-start', 'seg-mid-current', 'seg-end-current', 'seg-mid-other', 'seg-end-other', 'ack-unknown', 'ack-unknown-end',
             'refuse-unknown', 'refuse-id1', 'seg-mid-zero', 'seg-end-zero', 'sess-term', 'keepalive', 'msg-reject', 'unknown-type', 'unknown-type-ff', 'unknown-type-00', 'unknown-type-08']
@@ -504,12 +546,18 @@ def run_case(case):
             state = rng.choice(STATES[1:])
             alpha = _state_alphabet(state) + ['queue-own']
             items.append((rng.choice(['passive', 'active']), state, [rng.choice(alpha) for _ in range(rng.randint(3, 12))]))
+    if case['kind'] == 'givenup' and case['how'] == 'peer':
+        for extra in (1, 2, 3):
+            for flags in (tw.FLAG_END, tw.FLAG_START | tw.FLAG_END, 0, tw.FLAG_START):
+                items.append((case['role'], 'earlyack:%d:%d' % (extra, flags), []))
     if case['kind'] == 'givenup':
         for extra in (0, 1, 2, 3):
             for probe in (['refuse'], ['ack'], ['ackstart'], ['ackend'], ['ack', 'refuse', 'refuse']):
                 items.append((case['role'], 'givenup:%s:%d' % (case['how'], extra), probe))
     for (role, state, seq) in items:
-        if state.startswith('givenup:'):
+        if state.startswith('earlyack:'):
+            problems, any_oop = run_early_ack(role, int(state.split(':')[1]), int(state.split(':')[2]), obs)
+        elif state.startswith('givenup:'):
             problems, any_oop = run_givenup(role, state.split(':')[1], int(state.split(':')[2]), seq, obs)
         else:
             problems, any_oop = run_sequence(role, state, seq, obs, modulate=modulate)
